@@ -47,19 +47,31 @@ type PetQuery struct {
 type PetRoot struct{ Query *PetQuery }
 
 // PetsModel is the schema in the harness's model (the SDL is printed from it).
-func PetsModel() *model.Schema {
+func PetsModel() *model.Schema { return PetsModelV(0) }
+
+// PetsModelV varies the binding forms: (variant/4)%2 writes Cat's @go value in the name-only form ("SdbCat", a proper
+// suffix of the other Go type's name "BigSdbCat"), (variant/8)%2 lists Cat before Lion in the union.
+func PetsModelV(variant int) *model.Schema {
 	f := func(n string, t *model.TypeRef) *model.FieldDef { return &model.FieldDef{Name: n, Type: t} }
 	str, integer := model.Named("String"), model.Named("Int")
 	goDir := func(v string) []model.DirUse {
 		return []model.DirUse{{Name: "go", Args: []model.Arg{{Name: "type", Value: v}}}}
 	}
+	catGo := "zoo.SdbCat"
+	if (variant/4)%2 == 1 {
+		catGo = "SdbCat"
+	}
+	members := []string{"Lion", "Cat", "Dog"}
+	if (variant/8)%2 == 1 {
+		members = []string{"Cat", "Dog", "Lion"}
+	}
 	s := &model.Schema{Query: "Query"}
 	s.Types = []*model.TypeDef{
 		{Kind: model.Interface, Name: "Pet", Fields: []*model.FieldDef{f("name", str), f("buddy", model.Named("Pet")), f("twin", model.Named("Pet"))}},
 		{Kind: model.Object, Name: "Lion", Interfaces: []string{"Pet"}, Dirs: goDir("BigSdbCat"), Fields: []*model.FieldDef{f("name", str), f("roar", str), f("buddy", model.Named("Pet")), f("twin", model.Named("Lion"))}},
-		{Kind: model.Object, Name: "Cat", Interfaces: []string{"Pet"}, Dirs: goDir("zoo.SdbCat"), Fields: []*model.FieldDef{f("name", str), f("lives", integer), f("buddy", model.Named("Pet")), f("twin", model.Named("Cat"))}},
+		{Kind: model.Object, Name: "Cat", Interfaces: []string{"Pet"}, Dirs: goDir(catGo), Fields: []*model.FieldDef{f("name", str), f("lives", integer), f("buddy", model.Named("Pet")), f("twin", model.Named("Cat"))}},
 		{Kind: model.Object, Name: "Dog", Interfaces: []string{"Pet"}, Fields: []*model.FieldDef{f("name", str), f("tricks", model.ListOf(str)), f("buddy", model.Named("Pet")), f("twin", model.Named("Dog"))}},
-		{Kind: model.Union, Name: "Animal", Members: []string{"Lion", "Cat", "Dog"}},
+		{Kind: model.Union, Name: "Animal", Members: members},
 		{Kind: model.Object, Name: "Query", Fields: []*model.FieldDef{
 			f("pets", model.ListOf(model.Named("Pet"))), f("animals", model.ListOf(model.Named("Animal"))), f("pet", model.Named("Pet")), f("animal", model.Named("Animal")),
 			f("cats", model.ListOf(model.Named("Cat"))), f("lions", model.ListOf(model.Named("Lion")))}},
@@ -103,7 +115,7 @@ func PetsData(variant int) (*PetRoot, *model.Graph) {
 
 // NewPetsRoot loads the pets schema on a fresh (cold) root.
 func NewPetsRoot(variant int) (*ggql.Root, *model.Schema, *model.Graph, error) {
-	ms := PetsModel()
+	ms := PetsModelV(variant)
 	ro, g := PetsData(variant)
 	root := ggql.NewRoot(ro)
 	if err := root.ParseString(ms.SDL(model.SDLOpts{})); err != nil {
